@@ -2,11 +2,15 @@ package simkit
 
 import (
 	"bufio"
+	"bytes"
 	"encoding/json"
 	"flag"
 	"fmt"
 	"os"
+	"os/exec"
 	"runtime/debug"
+	"strconv"
+	"strings"
 	"time"
 )
 
@@ -21,6 +25,15 @@ type Engine interface {
 type EngineFunc struct {
 	N string
 	F func(t *Tape, o *Outcome, full bool)
+	// Ref, when set, makes the engine a Referencer.
+	Ref func(item int) string
+}
+
+func (e EngineFunc) Reference(item int) string {
+	if e.Ref == nil {
+		return ""
+	}
+	return e.Ref(item)
 }
 
 func (e EngineFunc) Name() string                          { return e.N }
@@ -51,7 +64,19 @@ type Summary struct {
 	Faults       map[string]int `json:"faults"`
 	Probes       map[string]int `json:"probes"`
 	TimedOut     bool           `json:"timed_out"`
+	// Tail: Observed hashes of the last runs of this worker (the ones with the
+	// longest process history behind them); see Phase.HistTail.
+	Tail []TailEntry `json:"tail,omitempty"`
 }
+
+type TailEntry struct {
+	Index    uint64 `json:"index"`
+	Observed uint64 `json:"observed"`
+}
+
+// HistoryClass is reported when a run returns other results after earlier runs
+// of the same process than in a fresh process.
+const HistoryClass = "results-depend-on-process-history"
 
 type runLine struct {
 	Type string   `json:"type"`
@@ -84,6 +109,21 @@ func WorkerMain(args []string, engines map[string]Engine) int {
 		return exec1Cmd(args[1:], engines)
 	case "shrink":
 		return shrinkCmd(args[1:], engines)
+	case "observe":
+		return observeCmd(args[1:], engines)
+	case "reference":
+		fs := flag.NewFlagSet("reference", flag.ContinueOnError)
+		engine := fs.String("engine", "", "")
+		item := fs.Int("item", 0, "")
+		if err := fs.Parse(args[1:]); err != nil {
+			return 2
+		}
+		r, ok := engines[*engine].(Referencer)
+		if !ok {
+			return 2
+		}
+		fmt.Println(r.Reference(*item))
+		return 0
 	}
 	fmt.Fprintln(os.Stderr, "unknown sub-command", args[0])
 	return 2
@@ -99,6 +139,7 @@ func workerCmd(args []string, engines map[string]Engine) int {
 	deadline := fs.Int64("deadline", 0, "unix seconds; 0 = none")
 	samples := fs.Int("samples", 0, "")
 	full := fs.Bool("full", false, "emit every outcome with log (determinism self-test)")
+	tail := fs.Int("tail", 0, "report the Observed hashes of the last N runs")
 	if err := fs.Parse(args); err != nil {
 		return 2
 	}
@@ -142,6 +183,12 @@ func workerCmd(args []string, engines map[string]Engine) int {
 		}
 		for k, v := range o.Probes {
 			sum.Probes[k] += v
+		}
+		if *tail > 0 && o.Observed != 0 && !o.TimingDependent && o.Harness == "" && len(o.Violations) == 0 {
+			sum.Tail = append(sum.Tail, TailEntry{idx, o.Observed})
+			if len(sum.Tail) > *tail {
+				sum.Tail = sum.Tail[1:]
+			}
 		}
 		if wantFull || len(o.Violations) > 0 || o.Harness != "" {
 			if !wantFull {
@@ -227,6 +274,9 @@ func exec1Cmd(args []string, engines map[string]Engine) int {
 	if rf.Tape == nil {
 		tape = NewTape(rf.Seed) // recorded by seed only (e.g. the worker process died)
 	}
+	if rf.Class == HistoryClass {
+		return replayHistory(rf)
+	}
 	runPriors(e, rf, rf.Prior)
 	o := RunOnce(e, tape, rf.Index, true)
 	b, _ := json.MarshalIndent(o, "", " ")
@@ -245,6 +295,119 @@ func exec1Cmd(args []string, engines map[string]Engine) int {
 		return 1
 	}
 	return 0
+}
+
+// observe: run the prior indices, then one index, in THIS process; print the
+// full outcome of that last run.
+func observeCmd(args []string, engines map[string]Engine) int {
+	fs := flag.NewFlagSet("observe", flag.ContinueOnError)
+	engine := fs.String("engine", "", "")
+	base := fs.Uint64("base", 1, "")
+	index := fs.Uint64("index", 0, "")
+	prior := fs.String("prior", "", "comma-separated indices, or @file")
+	full := fs.Bool("full", false, "")
+	if err := fs.Parse(args); err != nil {
+		return 2
+	}
+	e := engines[*engine]
+	if e == nil {
+		return 2
+	}
+	pr := *prior
+	if strings.HasPrefix(pr, "@") {
+		b, err := os.ReadFile(pr[1:])
+		if err != nil {
+			return 2
+		}
+		pr = strings.TrimSpace(string(b))
+	}
+	for _, f := range strings.Split(pr, ",") {
+		if f == "" {
+			continue
+		}
+		idx, err := strconv.ParseUint(f, 10, 64)
+		if err != nil {
+			return 2
+		}
+		RunOnce(e, NewTape(Mix(*base, e.Name(), idx)), idx, false)
+	}
+	o := RunOnce(e, NewTape(Mix(*base, e.Name(), *index)), *index, *full)
+	o.Tape = nil
+	b, _ := json.Marshal(o)
+	os.Stdout.Write(append(b, '\n'))
+	return 0
+}
+
+// ObserveIn runs "observe" in a fresh process of bin and returns the outcome.
+func ObserveIn(bin string, env []string, engine string, base, index uint64, prior []uint64, full bool) (*Outcome, error) {
+	args := []string{"observe", "--engine", engine, "--base", fmt.Sprint(base), "--index", fmt.Sprint(index)}
+	if full {
+		args = append(args, "--full")
+	}
+	if len(prior) > 0 {
+		var sb strings.Builder
+		for i, p := range prior {
+			if i > 0 {
+				sb.WriteByte(',')
+			}
+			sb.WriteString(strconv.FormatUint(p, 10))
+		}
+		f, err := os.CreateTemp("", "verif-prior-*")
+		if err != nil {
+			return nil, err
+		}
+		f.WriteString(sb.String())
+		f.Close()
+		defer os.Remove(f.Name())
+		args = append(args, "--prior", "@"+f.Name())
+	}
+	cmd := exec.Command(bin, args...)
+	cmd.Env = append(os.Environ(), env...)
+	out, err := cmd.Output()
+	if err != nil {
+		return nil, fmt.Errorf("observe %d after %d prior runs: %v", index, len(prior), err)
+	}
+	var o Outcome
+	if err := json.Unmarshal(bytes.TrimSpace(out), &o); err != nil {
+		return nil, err
+	}
+	return &o, nil
+}
+
+// replayHistory re-executes a HistoryClass replay file: the run alone in a
+// fresh process, and after its prior runs in another fresh process. Exit 1 when
+// the observed results differ (and print where).
+func replayHistory(rf *ReplayFile) int {
+	self, err := os.Executable()
+	if err != nil {
+		return 2
+	}
+	alone, err1 := ObserveIn(self, nil, rf.Engine, rf.BaseSeed, rf.Index, nil, true)
+	after, err2 := ObserveIn(self, nil, rf.Engine, rf.BaseSeed, rf.Index, rf.Prior, true)
+	if err1 != nil || err2 != nil {
+		fmt.Fprintln(os.Stderr, "replay:", err1, err2)
+		return 2
+	}
+	if alone.Observed == after.Observed {
+		fmt.Println("run", rf.Index, "observes the same results alone and after its", len(rf.Prior), "prior runs")
+		return 0
+	}
+	fmt.Printf("run %d observes different results in a fresh process and after %d earlier run(s) of the same process\n%s\n", rf.Index, len(rf.Prior), DiffOutcomes(alone, after))
+	return 1
+}
+
+// DiffOutcomes names the first difference between the scenario logs of two
+// executions of the same tape.
+func DiffOutcomes(alone, after *Outcome) string {
+	a, _ := json.MarshalIndent(alone.Scenario, "", " ")
+	b, _ := json.MarshalIndent(after.Scenario, "", " ")
+	la, lb := strings.Split(string(a), "\n"), strings.Split(string(b), "\n")
+	for i := 0; i < len(la) && i < len(lb); i++ {
+		if la[i] != lb[i] {
+			return fmt.Sprintf("first difference (scenario line %d):\n  fresh process   : %s\n  after prior runs: %s", i, strings.TrimSpace(la[i]), strings.TrimSpace(lb[i]))
+		}
+	}
+	return fmt.Sprintf("observed hashes differ (%016x vs %016x); scenario logs agree line by line up to the shorter one (%d vs %d lines)", alone.Observed, after.Observed, len(la), len(lb))
 }
 
 func runPriors(e Engine, rf *ReplayFile, prior []uint64) {
